@@ -78,10 +78,7 @@ def parse_ack(ack):
 
 def check_case(case):
     out = _check_case(case)
-    if 'env:drop-trailer' in (case.get('meta') or {}).get('faults', []):
-        # a set or group left unterminated in mid-file: failures on such inputs are kept apart (own buckets)
-        out.failures = [(b_ + '[unterminated-set-or-group]', d_) for b_, d_ in out.failures]
-        out.classes.append('unterminated-set-or-group')
+    genfaulty.tag_structural(case, out)
     return out
 
 
